@@ -186,7 +186,7 @@ func verif_CheckAuth(rp *HTTPReverseProxy, domain, location, routeByHTTPUser, us
 // request.
 //
 //verif:contract (*~/pkg/util/vhost.HTTPReverseProxy).ServeHTTP
-//verif:props C07
+//verif:props C07 C02
 func verif_ServeHTTP(rp *HTTPReverseProxy, rw http.ResponseWriter, req *http.Request) {
 	hdr := req.Header
 	verif.ResetEvents()
@@ -203,6 +203,14 @@ func verif_ServeHTTP(rp *HTTPReverseProxy, rw http.ResponseWriter, req *http.Req
 	} else {
 		verif.Ensures(!verif.Called(evCheckAuth) || !verif.RetBool(evCheckAuth, 0), "refused_only_when_check_failed")
 	}
+	// C02: the exchange is handed on under the request's own context (with the
+	// routing information attached) - the configured timeout bounds the wait for
+	// response headers inside the transport only, it never cuts a streamed body or
+	// an upgraded connection, so no deadline is attached here
+	if verif.Called(evFwd) {
+		verif.Ensures(verif.NthArg[*http.Request](evFwd, 0, 2) == verif.Ret[*http.Request]("HTTPReverseProxy).injectRequestInfoToCtx", 0), "forwarded_request_is_the_annotated_request")
+	}
+	verif.Ensures(!verif.Called("context.WithTimeout") && !verif.Called("context.WithDeadline"), "exchange_as_a_whole_is_not_bounded")
 	// the credential decision and the routing read the same request: its headers are not edited in between
 	verif.Ensures(!verif.CalledWith("net/http.Header).Del", 0, hdr), "request_headers_not_deleted")
 	verif.Ensures(!verif.CalledWith("net/http.Header).Add", 0, hdr), "request_headers_not_added")
@@ -265,7 +273,7 @@ func verif_getListener(v *Muxer, name, path, httpUser string) {
 // listener; a connection that cannot be handed over is closed, not left open.
 //
 //verif:contract (*~/pkg/util/vhost.Muxer).handle
-//verif:props C06 C07 C11
+//verif:props C06 C07 C11 C01
 func verif_Muxer_handle(v *Muxer, c net.Conn) {
 	verif.ResetEvents()
 	v.handle(c)
@@ -275,6 +283,13 @@ func verif_Muxer_handle(v *Muxer, c net.Conn) {
 		verif.Ensures(found, "handed_over_only_to_a_selected_listener")
 		verif.Ensures(verif.SentOn(l.accept), "handed_to_the_selected_listener")
 		verif.Ensures(verif.CallCount("send") == 1, "handed_over_once")
+		// C01 byte transparency of https / tcpmux tunnels: the connection handed
+		// over is the one that replays the sniffed bytes, and the deadline armed
+		// for sniffing is cleared on it in both directions before the hand-over
+		sc := verif.Ret[net.Conn](evVhostFunc, 0)
+		nDl := verif.CallCount("net.Conn).SetDeadline")
+		verif.Ensures(verif.Sent(l.accept, sc), "replaying_connection_handed_over")
+		verif.Ensures(nDl >= 2 && verif.Same(verif.NthArg[any]("net.Conn).SetDeadline", nDl-1, 0), any(sc)) && verif.NthArg[time.Time]("net.Conn).SetDeadline", nDl-1, 1) == (time.Time{}) && verif.CalledBefore("net.Conn).SetDeadline", "send"), "sniffing_deadline_cleared_in_both_directions_before_hand_over")
 		info := verif.Ret[map[string]string](evVhostFunc, 1)
 		verif.Ensures(verif.CalledWith(evGetListener, 1, strings.ToLower(info["Host"])), "selected_by_lower_cased_host")
 		if l.username != "" && l.mux.checkAuth != nil {
